@@ -1491,9 +1491,9 @@ func init() {
 		Reach: []string{"generated", "bare-atom", "definite", "dne"},
 		Bounds: func(tier string) map[string]interface{} {
 			return map[string]interface{}{"levels": "0 and 1, exhaustively over all values (*rand.Rand).Intn can return (nondeterministic stub); level 1 = one operator/if over leaf children",
-				"children":  "variables carry arbitrary int64 / bool values (solver variables) or DNE, numeric literals are arbitrary values in their range, so at level 1 the operands range over every possible child result; the code computing Res from the children's Res is the same at every level ≥ 1",
+				"children":     "variables carry arbitrary int64 / bool values (solver variables) or DNE, numeric literals are arbitrary values in their range, so at level 1 the operands range over every possible child result; the code computing Res from the children's Res is the same at every level ≥ 1",
 				"late_binding": "the GenVariables option built from a map that is filled in afterwards (level 0)", "variables": "2 numbers (one passed as Go int), 2 booleans, 2 DNE variables; every class present or missing (8 subsets at level 0; thorough: 8 option/subset pairs at level 1 as well), and a string variable the generator has no use for",
-				"options":   "both result types × {variables, conditions, TryEval/DNE} quick: none and all at level 1 (every subset at level 0); thorough: every subset at level 1"}
+				"options": "both result types × {variables, conditions, TryEval/DNE} quick: none and all at level 1 (every subset at level 0); thorough: every subset at level 1"}
 		},
 		Rule: "one unit per (level, result type, option set); a state is one symbolic path through the generator, Compile and Eval/TryEval plus the reference evaluator",
 		Assumptions: []string{"levels ≥ 2 are not run: their sub-expressions are arbitrary children of the level-1 step; that a sub-expression can be replaced by a variable bound to its value without changing the result is compositionality of evaluation (C01/C05)",
